@@ -222,6 +222,37 @@ def check(ctx) -> None:
         ctx.instance("C10-A7", "candidates %r: %d sort(s); the last one ranks by element %r, the total is element %d" % (lst, len(sorts), pr, tp), g.loc(last), ok=ok)
         if not ok:
             ctx.finding("C10-A7", "ExtractMCS.get_largest_condition:sort-order", g.loc(last), "the candidates are sorted %d time(s) and the last (stable) sort - the primary criterion - ranks by tuple element %r, not by the total number of matched atoms (element %d): a condition with a larger first fragment but a smaller total is retained" % (len(sorts), pr, tp))
+    # ---------------------------------------------------------------- A9
+    # mcs_results[i] is attributed to sorted_reactants[i].  The pairwise search appends None for a molecule whose step
+    # failed - possibly in addition to the match it had already appended - so the two lists can differ in length.  The
+    # publication is safe only if a None entry makes it fail (MolToSmarts(None) raises, the condition result is
+    # discarded), or if the lengths of the two published lists are compared first.
+    ctx.rule("C10-A9", "a failed step's None entry is not published as a substructure (or the two published lists are length-checked)", 1)
+    sm9 = prog.func(SINGLE)
+    pubs9 = [n for n in own_nodes(sm9.node) if isinstance(n, ast.Assign) and isinstance(n.targets[0], ast.Subscript) and const_str(n.targets[0].slice) == "mcs_results"]
+    ctx.require(pubs9, "single_mcs no longer publishes mcs_results")
+    scfg9 = CFG(sm9.node)
+    for p9 in pubs9:
+        v = p9.value
+        tolerant = None
+        src = None
+        if isinstance(v, (ast.ListComp, ast.GeneratorExp)):
+            src = unparse(v.generators[0].iter)
+            tv = v.generators[0].target
+            for x in ast.walk(v):
+                if isinstance(x, (ast.IfExp, ast.Compare)) and isinstance(tv, ast.Name) and any(isinstance(y, ast.Name) and y.id == tv.id for y in ast.walk(x.test if isinstance(x, ast.IfExp) else x)) and "None" in unparse(x):
+                    tolerant = x
+            if any(g.ifs for g in v.generators):
+                tolerant = tolerant or v.generators[0].ifs[0]
+        length_checked = False
+        for c, pol in scfg9.guards(scfg9.node_of(p9)):
+            nc = normal_compare(c, pol)
+            if nc and nc[1] == "==" and src is not None and ("len(%s)" % src) in (unparse(nc[0]), unparse(nc[2])):
+                length_checked = True
+        ok = tolerant is None or length_checked
+        ctx.instance("C10-A9", "single_mcs: mcs_results built from %s (tolerates None: %s, length compared: %s)" % (src, tolerant is not None, length_checked), sm9.loc(p9), ok=ok)
+        if not ok:
+            ctx.finding("C10-A9", "mcs_process.single_mcs:none-entry-published", sm9.loc(p9), "mcs_results is built with a branch for None entries (%s) and without comparing len(%s) with the molecule list: a molecule whose step failed after its match was appended contributes two entries, and every later substructure is attributed to the wrong molecule" % (unparse(tolerant)[:50], src))
     # ---------------------------------------------------------------- A3
     sm = prog.func(SINGLE)
     scfg = CFG(sm.node)
